@@ -23,7 +23,10 @@ from vlib.coqfmt import cfloat, clist, cbool
 ENV_BY_TIER = {"quick": {"NUMBA_DISABLE_JIT": "1"}, "thorough": {"NUMBA_DISABLE_JIT": "1"}}
 
 RULE = ("msprime tree sequences (2-7 samples, 1-40 trees, L in 20..2e6, integer or continuous site positions, "
-        "historical samples, populations/individuals) whose sites are thinned to leave flanks and gaps; "
+        "historical samples, populations/individuals) whose sites are thinned to leave flanks and gaps; sites "
+        "placed exactly on tree breakpoints (45%), mutation-free sites, unreferenced / de-sampled nodes, and on "
+        "~40% gen.exotic decorations (extra flag bits, all nodes renumbered, mutations above roots, unknown "
+        "mutation times, arbitrary allele states, populations); "
         "minimum_gap drawn from the actual gap sizes (exactly equal, just below, just above), 0, 2, 2.5, the "
         "default; erase_flanks / remove_telomeres in {None, True, False}; delete_intervals None, [], or random "
         "disjoint sorted user intervals (some containing sites); split_disjoint and the three filter flags; "
@@ -64,6 +67,38 @@ def make_ts(rng):
         if len(drop) < ts.num_sites:
             tables.delete_sites(drop)
             ts = tables.tree_sequence()
+    # sites exactly ON tree breakpoints (where edges -- and, after splitting, node ids -- change), each with a
+    # mutation on a node of the tree that starts there
+    if rng.random() < 0.45 and ts.num_trees > 1:
+        import tskit
+        tables = ts.dump_tables()
+        tables.mutations.time = np.full(tables.mutations.num_rows, tskit.UNKNOWN_TIME)
+        used = set(float(x) for x in tables.sites.position)
+        bps = [b for b in list(ts.breakpoints())[1:-1] if float(b) not in used]
+        rng.shuffle(bps)
+        for x in bps[:rng.randint(1, 4)]:
+            tree = ts.at(x)
+            nodes = [u for u in tree.nodes() if tree.parent(u) != -1]
+            if not nodes:
+                continue
+            sid = tables.sites.add_row(float(x), "0")
+            tables.mutations.add_row(site=sid, node=int(rng.choice(nodes)), derived_state="1", time=tskit.UNKNOWN_TIME)
+        tables.sort()
+        tables.build_index()
+        tables.compute_mutation_parents()
+        ts = tables.tree_sequence()
+    # gen.exotic decorations on ~40% of the inputs
+    if rng.random() < 0.4 and L <= 1000:
+        try:
+            ts, _kinds = gen.exotic(rng, ts, p=0.35)
+        except Exception:   # noqa: BLE001
+            pass
+    elif rng.random() < 0.4:
+        try:
+            ts, _kinds = gen.exotic(rng, ts, kinds=["extra_flags", "permute_nodes", "unknown_mutation_times", "states",
+                                                    "populations"], p=0.35)
+        except Exception:   # noqa: BLE001
+            pass
     # sometimes not simplified: a node that no edge refers to, and unary stretches of nodes
     if rng.random() < 0.3:
         if rng.random() < 0.5 and ts.num_samples > 2:
